@@ -1,10 +1,370 @@
-//! C02 — not built yet.
-use crate::{sx::Sx, Emitter};
+//! C02 — sign_json / verify_json.
+//!  ( 0 obj ((entity key-index version)...) table )  -> ( status final-object )
+//!  ( 1 obj pkmap table expect-ok )                  -> ok () | err 0
+//! `table`: honest (key, message, signature) triples recorded while signing.
+use std::{cell::RefCell, collections::BTreeMap};
 
-pub fn run(_tier: &str, _seed: u64, _em: &mut Emitter) {}
+use ruma_common::{serde::Base64, CanonicalJsonObject, CanonicalJsonValue};
+use ruma_signatures::{sign_json, verify_json, Ed25519KeyPair, KeyPair, PublicKeyMap, PublicKeySet, Signature};
 
-pub fn replay(_case: &Sx) -> Option<Sx> {
-    None
+use crate::{
+    jgen::{gen_json, gen_obj, gen_str},
+    rng::Rng,
+    sx::{guarded, obj_to_sx, sx_to_obj, Sx},
+    Emitter,
+};
+
+pub const N_KEYS: usize = 4;
+
+/// Deterministic Ed25519 key pairs: PKCS#8 v1 documents built from fixed seeds.
+pub fn keypair(idx: usize, version: &str) -> Ed25519KeyPair {
+    let mut der = vec![0x30, 0x2e, 0x02, 0x01, 0x00, 0x30, 0x05, 0x06, 0x03, 0x2b, 0x65, 0x70, 0x04, 0x22, 0x04, 0x20];
+    for i in 0..32u8 {
+        der.push(i.wrapping_mul(7).wrapping_add(idx as u8 * 31 + 1));
+    }
+    Ed25519KeyPair::from_der(&der, version.to_owned()).unwrap()
+}
+
+/// A `KeyPair` that records every (message, signature) it produces.
+pub struct Recording<'a> {
+    pub inner: Ed25519KeyPair,
+    pub idx: usize,
+    pub log: &'a RefCell<Vec<(usize, Vec<u8>, Vec<u8>)>>,
+}
+
+impl KeyPair for Recording<'_> {
+    fn sign(&self, message: &[u8]) -> Signature {
+        let s = self.inner.sign(message);
+        self.log.borrow_mut().push((self.idx, message.to_vec(), s.as_bytes().to_vec()));
+        s
+    }
+}
+
+const ENTITIES: &[&str] = &["a.example", "b.example", "c.example:8448", "[::1]", ""];
+const VERSIONS: &[&str] = &["1", "key_2", "a+b", ""];
+
+type Step = (String, usize, String);
+
+fn run_sign(obj: &CanonicalJsonObject, steps: &[Step]) -> (Sx, Vec<(usize, Vec<u8>, Vec<u8>)>) {
+    let log = RefCell::new(vec![]);
+    let obj0 = obj.clone();
+    let out = {
+        let log = &log;
+        let steps = steps.to_vec();
+        guarded(std::panic::AssertUnwindSafe(move || {
+            let mut o = obj0;
+            let mut status = 0;
+            for (e, k, v) in &steps {
+                let kp = Recording { inner: keypair(*k, v), idx: *k, log };
+                if sign_json(e, &kp, &mut o).is_err() {
+                    status = 1;
+                    break;
+                }
+            }
+            Sx::L(vec![Sx::N(status), obj_to_sx(&o)])
+        }))
+    };
+    (out, log.into_inner())
+}
+
+fn sign_case(obj: &CanonicalJsonObject, steps: &[Step]) -> (Sx, Sx) {
+    let (out, log) = run_sign(obj, steps);
+    let table = Sx::L(log.iter().map(|(k, m, s)| Sx::L(vec![Sx::n(*k as i64), Sx::S(m.clone()), Sx::S(s.clone())])).collect());
+    let case = Sx::L(vec![
+        Sx::N(0),
+        obj_to_sx(obj),
+        Sx::L(steps.iter().map(|(e, k, v)| Sx::L(vec![Sx::s(e), Sx::n(*k as i64), Sx::s(v)])).collect()),
+        table,
+    ]);
+    (case, out)
+}
+
+type Pk = BTreeMap<String, BTreeMap<String, Vec<u8>>>;
+
+fn run_verify(obj: &CanonicalJsonObject, pk: &Pk) -> Sx {
+    let mut map = PublicKeyMap::new();
+    for (e, ks) in pk {
+        let mut set = PublicKeySet::new();
+        for (kid, bytes) in ks {
+            set.insert(kid.clone(), Base64::new(bytes.clone()));
+        }
+        map.insert(e.clone(), set);
+    }
+    let obj = obj.clone();
+    guarded(move || match verify_json(&map, &obj) {
+        Ok(()) => Sx::ok(Sx::L(vec![])),
+        Err(_) => Sx::err(0),
+    })
+}
+
+fn verify_case(obj: &CanonicalJsonObject, pk: &Pk, table: &[(Vec<u8>, Vec<u8>, Vec<u8>)], expect_ok: bool) -> (Sx, Sx) {
+    let pkm = Sx::L(
+        pk.iter()
+            .map(|(e, ks)| {
+                Sx::L(vec![Sx::s(e), Sx::L(ks.iter().map(|(k, b)| Sx::L(vec![Sx::s(k), Sx::S(b.clone())])).collect())])
+            })
+            .collect(),
+    );
+    let tbl = Sx::L(table.iter().map(|(k, m, s)| Sx::L(vec![Sx::S(k.clone()), Sx::S(m.clone()), Sx::S(s.clone())])).collect());
+    let case = Sx::L(vec![Sx::N(1), obj_to_sx(obj), pkm, tbl, Sx::b(expect_ok)]);
+    (case, run_verify(obj, pk))
+}
+
+pub fn replay(case: &Sx) -> Option<Sx> {
+    let l = case.as_list()?;
+    let obj = sx_to_obj(l.get(1)?)?;
+    match l.first()?.as_int()? {
+        0 => {
+            let steps: Vec<Step> = l
+                .get(2)?
+                .as_list()?
+                .iter()
+                .map(|s| {
+                    let s = s.as_list()?;
+                    Some((s.first()?.as_string()?, s.get(1)?.as_int()? as usize, s.get(2)?.as_string()?))
+                })
+                .collect::<Option<_>>()?;
+            Some(run_sign(&obj, &steps).0)
+        }
+        _ => {
+            let mut pk = Pk::new();
+            for e in l.get(2)?.as_list()? {
+                let e = e.as_list()?;
+                let mut ks = BTreeMap::new();
+                for kv in e.get(1)?.as_list()? {
+                    let kv = kv.as_list()?;
+                    ks.insert(kv.first()?.as_string()?, kv.get(1)?.as_bytes()?.to_vec());
+                }
+                pk.insert(e.first()?.as_string()?, ks);
+            }
+            Some(run_verify(&obj, &pk))
+        }
+    }
 }
 
 pub fn dump(_dir: &str) {}
+
+fn gen_steps(r: &mut Rng) -> Vec<Step> {
+    let n = 1 + r.below(3);
+    (0..n).map(|_| ((*r.pick(ENTITIES)).to_owned(), r.below(N_KEYS), (*r.pick(VERSIONS)).to_owned())).collect()
+}
+
+fn gen_base(r: &mut Rng) -> CanonicalJsonObject {
+    let mut o = gen_obj(r, 2);
+    if r.chance(1, 2) {
+        o.insert("unsigned".into(), gen_json(r, 2));
+    }
+    if r.chance(1, 3) {
+        o.insert("content".into(), CanonicalJsonValue::Object(gen_obj(r, 2)));
+    }
+    o
+}
+
+pub fn run(tier: &str, seed: u64, em: &mut Emitter) {
+    let mut r = Rng::new(seed ^ 0xC02);
+    let n = if tier == "thorough" { 20_000 } else { 1_000 };
+
+    // ---- signing ----
+    for i in 0..n {
+        let mut obj = gen_base(&mut r);
+        // pre-existing `signatures` of every shape, including the ill-typed ones
+        match r.below(8) {
+            0 => {
+                obj.insert("signatures".into(), gen_json(&mut r, 1));
+            }
+            1 => {
+                let mut m = CanonicalJsonObject::new();
+                m.insert((*r.pick(ENTITIES)).to_owned(), gen_json(&mut r, 1));
+                obj.insert("signatures".into(), CanonicalJsonValue::Object(m));
+            }
+            2 => {
+                let mut set = CanonicalJsonObject::new();
+                set.insert("ed25519:old".into(), CanonicalJsonValue::String("AAAA".into()));
+                set.insert("ed25519:1".into(), CanonicalJsonValue::String("BBBB".into()));
+                let mut m = CanonicalJsonObject::new();
+                m.insert((*r.pick(ENTITIES)).to_owned(), CanonicalJsonValue::Object(set));
+                m.insert("other".into(), CanonicalJsonValue::Object(CanonicalJsonObject::new()));
+                obj.insert("signatures".into(), CanonicalJsonValue::Object(m));
+            }
+            _ => {}
+        }
+        let steps = if i % 2 == 0 { vec![gen_steps(&mut r).remove(0)] } else { gen_steps(&mut r) };
+        let (case, out) = sign_case(&obj, &steps);
+        em.emit(if steps.len() == 1 { "sign-one" } else { "sign-sequence" }, case, out);
+    }
+
+    // ---- verification ----
+    for _ in 0..n {
+        let base = gen_base(&mut r);
+        let steps = gen_steps(&mut r);
+        let log = RefCell::new(vec![]);
+        let mut signed = base.clone();
+        let mut ok = true;
+        for (e, k, v) in &steps {
+            let kp = Recording { inner: keypair(*k, v), idx: *k, log: &log };
+            if sign_json(e, &kp, &mut signed).is_err() {
+                ok = false;
+            }
+        }
+        if !ok {
+            continue;
+        }
+        // honest triples, keyed by public key bytes
+        let table: Vec<(Vec<u8>, Vec<u8>, Vec<u8>)> =
+            log.borrow().iter().map(|(k, m, s)| (keypair(*k, "x").public_key().to_vec(), m.clone(), s.clone())).collect();
+        let mut pk = Pk::new();
+        for (e, k, v) in &steps {
+            pk.entry(e.clone()).or_default().insert(format!("ed25519:{v}"), keypair(*k, v).public_key().to_vec());
+        }
+        // A later step may have replaced an earlier signature of the same entity+version with a
+        // different key: the map above then holds the later key, which is the matching one.
+        let (case, out) = verify_case(&signed, &pk, &table, true);
+        em.emit("verify-honest", case, out);
+
+        // tamperings: each is one edit of the signed object or of the key map
+        for _ in 0..6 {
+            let mut o = signed.clone();
+            let mut pk2 = pk.clone();
+            let tag;
+            match r.below(14) {
+                0 => {
+                    o.insert("unsigned".into(), gen_json(&mut r, 2));
+                    tag = "tamper-unsigned";
+                }
+                1 => {
+                    o.insert(gen_str(&mut r), gen_json(&mut r, 1));
+                    tag = "tamper-member";
+                }
+                2 => {
+                    let keys: Vec<String> = o.keys().filter(|k| *k != "signatures" && *k != "unsigned").cloned().collect();
+                    if keys.is_empty() {
+                        continue;
+                    }
+                    o.remove(r.pick(&keys));
+                    tag = "tamper-remove-member";
+                }
+                3 | 4 | 5 => {
+                    // edit one signature string
+                    let Some(CanonicalJsonValue::Object(sm)) = o.get_mut("signatures") else { continue };
+                    let ents: Vec<String> = sm.keys().cloned().collect();
+                    let e = r.pick(&ents).clone();
+                    let Some(CanonicalJsonValue::Object(set)) = sm.get_mut(&e) else { continue };
+                    let kids: Vec<String> = set.keys().cloned().collect();
+                    if kids.is_empty() {
+                        continue;
+                    }
+                    let kid = r.pick(&kids).clone();
+                    let Some(CanonicalJsonValue::String(s)) = set.get(&kid).cloned() else { continue };
+                    let newv = match r.below(7) {
+                        0 => CanonicalJsonValue::String(format!("{s}=")),
+                        1 => CanonicalJsonValue::String(format!("{s}==")),
+                        2 => CanonicalJsonValue::String(format!("{s}===")),
+                        3 => {
+                            let mut b = s.into_bytes();
+                            let i = r.below(b.len());
+                            b[i] = if b[i] == b'A' { b'B' } else { b'A' };
+                            CanonicalJsonValue::String(String::from_utf8(b).unwrap())
+                        }
+                        4 => CanonicalJsonValue::String(s[..s.len() - 1].to_owned()),
+                        5 => CanonicalJsonValue::String(format!("{}!", &s[..s.len() - 1])),
+                        _ => gen_json(&mut r, 0),
+                    };
+                    set.insert(kid, newv);
+                    tag = "tamper-signature";
+                }
+                6 => {
+                    // add a signature with an unknown algorithm / malformed id (ignored) …
+                    let Some(CanonicalJsonValue::Object(sm)) = o.get_mut("signatures") else { continue };
+                    let ents: Vec<String> = sm.keys().cloned().collect();
+                    let e = r.pick(&ents).clone();
+                    let Some(CanonicalJsonValue::Object(set)) = sm.get_mut(&e) else { continue };
+                    let kid = (*r.pick(&["foo:1", "ed25519", ":x", "ed25519x:1", "Ed25519:1", "ed25519:zzz"])).to_owned();
+                    set.insert(kid, gen_json(&mut r, 0));
+                    tag = "tamper-extra-keyid";
+                }
+                7 => {
+                    // … or a new entity without a usable signature
+                    let Some(CanonicalJsonValue::Object(sm)) = o.get_mut("signatures") else { continue };
+                    let v = match r.below(3) {
+                        0 => CanonicalJsonValue::Object(CanonicalJsonObject::new()),
+                        1 => gen_json(&mut r, 0),
+                        _ => {
+                            let mut set = CanonicalJsonObject::new();
+                            set.insert("foo:1".into(), CanonicalJsonValue::String("AAAA".into()));
+                            CanonicalJsonValue::Object(set)
+                        }
+                    };
+                    sm.insert("new.example".into(), v);
+                    tag = "tamper-extra-entity";
+                }
+                8 => {
+                    match r.below(2) {
+                        0 => {
+                            o.remove("signatures");
+                        }
+                        _ => {
+                            o.insert("signatures".into(), gen_json(&mut r, 0));
+                        }
+                    }
+                    tag = "tamper-signatures-shape";
+                }
+                9 => {
+                    let ents: Vec<String> = pk2.keys().cloned().collect();
+                    pk2.remove(r.pick(&ents));
+                    tag = "keys-missing-entity";
+                }
+                10 => {
+                    let ents: Vec<String> = pk2.keys().cloned().collect();
+                    let e = r.pick(&ents).clone();
+                    let set = pk2.get_mut(&e).unwrap();
+                    let kids: Vec<String> = set.keys().cloned().collect();
+                    set.remove(r.pick(&kids));
+                    tag = "keys-missing-key";
+                }
+                11 => {
+                    let ents: Vec<String> = pk2.keys().cloned().collect();
+                    let e = r.pick(&ents).clone();
+                    let set = pk2.get_mut(&e).unwrap();
+                    let kids: Vec<String> = set.keys().cloned().collect();
+                    let kid = r.pick(&kids).clone();
+                    let newk = match r.below(3) {
+                        0 => keypair((r.below(N_KEYS) + 1) % N_KEYS, "x").public_key().to_vec(),
+                        1 => vec![1, 2, 3],
+                        _ => {
+                            let mut b = set[&kid].clone();
+                            b[0] ^= 1;
+                            b
+                        }
+                    };
+                    set.insert(kid, newk);
+                    tag = "keys-wrong-key";
+                }
+                12 => {
+                    // permute nothing semantically: re-insert members (BTreeMap order is fixed), add
+                    // an unrelated entity's keys
+                    pk2.entry("unrelated.example".into()).or_default().insert("ed25519:1".into(), vec![0; 32]);
+                    tag = "keys-extra";
+                }
+                _ => {
+                    // nested edit inside a signed member
+                    let keys: Vec<String> = o.keys().filter(|k| *k != "signatures" && *k != "unsigned").cloned().collect();
+                    if keys.is_empty() {
+                        continue;
+                    }
+                    let k = r.pick(&keys).clone();
+                    let v = gen_json(&mut r, 1);
+                    if o.get(&k) == Some(&v) {
+                        continue;
+                    }
+                    o.insert(k, v);
+                    tag = "tamper-member";
+                }
+            }
+            // after a tampering we do not know the expected verdict a priori, except that edits
+            // confined to `unsigned` or extra keys must keep it Ok
+            let expect = tag == "tamper-unsigned" || tag == "keys-extra";
+            let (case, out) = verify_case(&o, &pk2, &table, expect);
+            em.emit(tag, case, out);
+        }
+    }
+}
